@@ -261,6 +261,11 @@ def run(ck):
         return hc.text(n_)
     ups = [(vname(hc.receiver(i)), vname(hc.call_args(i)[0])) for i in hc.walk() if hc.nodes[i].get('callee') == NS + 'Sha256::update']
     fins = [vname(hc.receiver(i)) for i in hc.walk() if hc.nodes[i].get('callee') == NS + 'Sha256::finalize']
+    # each update hashes a whole named object (pad, message, inner digest): nothing selects a prefix / sub-range of it
+    partial = [i for i in hc.walk() if hc.nodes[i].get('callee') == NS + 'Sha256::update' and
+               any(hc.nodes[j]['k'] in ('CallExpr', 'CXXMemberCallExpr', 'CXXOperatorCallExpr', 'BinaryOperator', 'UnaryOperator', 'ArraySubscriptExpr') for j in hc.walk(hc.call_args(i)[0]))]
+    ck.ob('C08.hmac', 'C08.hmac/whole-operands', not partial, hc.loc(partial[0]) if partial else hc.loc(),
+          'HMAC hashes ipad, the whole message, opad and the whole inner digest: no update() is given a sub-range (first(n), subspan, pointer arithmetic) of its operand')
     want_seq = [('inner', 'i_key_pad'), ('inner', vn(hc, hc.params[1])), ('outer', 'o_key_pad'), ('outer', 'inner_hash')]
     got_seq = list(ups)
     ck.ob('C08.hmac', 'C08.hmac/composition', got_seq == want_seq and fins == ['inner', 'outer'], hc.loc(),
